@@ -17,6 +17,9 @@ ObsVal(v) == <<Get(v, "timex", ""), Get(v, "type", ""),
 ObsVals(e) == IF Has(e.res, "values") THEN [k \in 1..Len(e.res.values) |-> ObsVal(e.res.values[k])] ELSE <<>>
 SeqSet(s) == { s[k] : k \in 1..Len(s) }
 
+(* an expected TIMEX "*" leaves the TIMEX unconstrained (the statement fixes only the endpoints) *)
+Wild(c, vs) == [k \in 1..Len(vs) |-> IF \E x \in SeqSet(c.vals) : x[1] = "*" THEN <<"*", vs[k][2], vs[k][3], vs[k][4]>> ELSE vs[k]]
+
 ExactVerdict(c, obs) ==
   LET es == obs.ents IN
   IF Len(es) = 0 THEN "Recognised: the expression yields no entity"
@@ -25,8 +28,8 @@ ExactVerdict(c, obs) ==
        IF e.s # c.s \/ e.e # c.e THEN "Span: the entity does not cover exactly the expression"
        ELSE IF e.type # "datetimeV2." \o c.type THEN "Type: entity type is " \o e.type \o ", expected datetimeV2." \o c.type
        ELSE IF ~Has(e.res, "values") THEN "Resolved: the entity carries no resolution values"
-       ELSE IF c.ordered /\ ObsVals(e) # c.vals THEN "Values: resolution values differ from the expected sequence"
-       ELSE IF ~c.ordered /\ (SeqSet(ObsVals(e)) # SeqSet(c.vals) \/ Len(ObsVals(e)) # Len(c.vals)) THEN "Values: resolution values differ from the expected set"
+       ELSE IF c.ordered /\ Wild(c, ObsVals(e)) # c.vals THEN "Values: resolution values differ from the expected sequence"
+       ELSE IF ~c.ordered /\ (SeqSet(Wild(c, ObsVals(e))) # SeqSet(c.vals) \/ Len(ObsVals(e)) # Len(c.vals)) THEN "Values: resolution values differ from the expected set"
        ELSE "ok"
 
 MonthNameEn == <<"January", "February", "March", "April", "May", "June", "July", "August", "September", "October", "November", "December">>
